@@ -37,6 +37,7 @@ type vfRunCfg struct {
 	stop      bool // a stop request may arrive
 	maxact    bool // nondet maxActiveRuns
 	dry       bool
+	repeat    bool // step s0 is a repeating step (C05.repeat)
 	nilPolicy bool // also explore RetryPolicy == nil (otherwise Limit 0 stands for it)
 	metPre    bool // also explore a met precondition (otherwise "none" stands for it)
 }
@@ -129,7 +130,9 @@ func (e *vfExec) Run() error {
 		}
 		if vfCfg.mon&vfMonC05 != 0 {
 			if vfStopped {
-				if vfAtStop[e.idx] == NodeStatusRunning {
+				if vfCfg.repeat && e.idx == 0 && attempt > 0 {
+					vfClass("repeating-step-repeated-after-stop")
+				} else if vfAtStop[e.idx] == NodeStatusRunning {
 					// the launch had been decided (label already "running") before the stop arrived
 					vfClass("stop-raced-with-launch-in-progress")
 				} else {
@@ -216,6 +219,11 @@ func vfRun(cfg vfRunCfg) {
 				steps[i].Preconditions = []dag.Condition{{Condition: "x", Expected: "y"}}
 			}
 		}
+	}
+	if cfg.repeat {
+		steps[0].RepeatPolicy.Repeat = true
+		steps[0].RetryPolicy = nil
+		lim[0] = 0
 	}
 	vfSteps = steps
 	lg := vfQuietLogger()
@@ -450,6 +458,9 @@ func vfFinalChecks(cfg vfRunCfg, lim, pre []int, hs [4]bool, rerr error) {
 			vfAssert(ce == 0, "C04.handlers/unconfigured-exit-handler-never-runs")
 		}
 	}
+	if cfg.mon&vfMonC05 != 0 && cfg.repeat {
+		vfAssert(vfCount("kill", 0) == 0, "C05.repeat/repeating-step-is-not-signalled")
+	}
 	if cfg.mon&vfMonC05 != 0 && stopped {
 		allOK := true
 		for i := 0; i < cfg.n; i++ {
@@ -530,3 +541,6 @@ func VerifHarness_RUN_C15_n4() { vfRun(vfRunCfg{n: 4, mon: vfMonC15, maxact: tru
 // C08: status snapshots persisted during the run.
 func VerifHarness_RUN_C08_n2() { vfRun(vfRunCfg{n: 2, mon: vfMonC08, retries: 1, preconds: true}) }
 func VerifHarness_RUN_C08_n3() { vfRun(vfRunCfg{n: 3, mon: vfMonC08, retries: 1, preconds: true}) }
+
+// C05.repeat: s0 repeats; a stop lets the current iteration finish and starts no further one.
+func VerifHarness_RUN_C05_rep() { vfRun(vfRunCfg{n: 2, mon: vfMonC05, stop: true, repeat: true}) }
